@@ -2,6 +2,14 @@
 import json, jsonschema, glob, sys
 jsonschema.validate(json.load(open('/verif/MANIFEST.json')), json.load(open('/root/.vp/MANIFEST.schema.json')))
 es = json.load(open('/root/.vp/EVIDENCE.schema.json'))
+bad = 0
 for f in sorted(glob.glob('/verif/evidence/*.json')):
-    jsonschema.validate(json.load(open(f)), es)
+    d = json.load(open(f))
+    jsonschema.validate(d, es)
+    c = d['coverage']
+    # the committed evidence must come from a clean run on the current tree
+    if d.get('level') == 'proof' and (c.get('obligations') != c.get('discharged') or d.get('violations')):
+        print('STALE/FAILED evidence:', f, c.get('obligations'), c.get('discharged'), d.get('violations'))
+        bad += 1
 print('manifest and', len(glob.glob('/verif/evidence/*.json')), 'evidence files valid')
+sys.exit(1 if bad else 0)
